@@ -137,7 +137,8 @@ zix_bump_aligned_free(ZixAllocator* const allocator, void* const ptr)
 ZIX_CONST_FUNC ZixBumpAllocator
 zix_bump_allocator(const size_t capacity, void* buffer)
 {
-  const size_t aligned_top = (uintptr_t)buffer % min_alignment;
+  const size_t aligned_top =
+    (min_alignment - ((uintptr_t)buffer % min_alignment)) % min_alignment;
 
   ZixBumpAllocator bump_allocator = {
     {
